@@ -347,20 +347,45 @@ func schemataDigest(r *validate.Result, withHash bool) string {
 			}
 		}
 	}
+	// content of the schemata reported per field and per item too (a result must own what it reports: a schema that still
+	// points into pooled scratch memory changes under the caller's feet)
+	hashOf := func(ss []*spec.Schema) uint64 {
+		x := uint64(14695981039346656037)
+		for _, s := range ss {
+			if s == nil {
+				continue
+			}
+			if bb, err := json.Marshal(s); err == nil {
+				for _, c := range bb {
+					x ^= uint64(c)
+					x *= 1099511628211
+				}
+			}
+		}
+		return x
+	}
 	fs := r.FieldSchemata()
 	nf := 0
 	fields := make([]string, 0, len(fs))
 	for k, v := range fs {
 		nf += len(v)
-		fields = append(fields, fmt.Sprintf("%s:%d", k.Field(), len(v)))
+		if withHash {
+			fields = append(fields, fmt.Sprintf("%s:%d:%x", k.Field(), len(v), hashOf(v)&0xffffff))
+		} else {
+			fields = append(fields, fmt.Sprintf("%s:%d", k.Field(), len(v)))
+		}
 	}
 	sort.Strings(fields)
 	is := r.ItemSchemata()
 	ni := 0
+	var ih uint64
 	for _, v := range is {
 		ni += len(v)
+		if withHash {
+			ih += hashOf(v) // (order-independent combination: the keys carry reflect values)
+		}
 	}
-	fmt.Fprintf(&b, " h=%x fields=%d/%d[%s] items=%d/%d", h, len(fs), nf, strings.Join(fields, ","), len(is), ni)
+	fmt.Fprintf(&b, " h=%x fields=%d/%d[%s] items=%d/%d/%x", h, len(fs), nf, strings.Join(fields, ","), len(is), ni, ih&0xffffff)
 	return b.String()
 }
 
